@@ -354,7 +354,9 @@ def check_names(ctx, facts):
                               {"kind": "static", "row": e})
                 continue
             L = lanes(e)
-            for n in sorted({2, L + 1, 8 * L + L + 2}):
+            # lengths: scalar tail only; one register + tail; one dense block + register + tail; and (for the fused /
+            # unfused distinction, which needs a non-zero accumulator in the dense loop) three dense blocks + tail
+            for n in sorted({2, L + 1, 8 * L + L + 2, 3 * 8 * L + 3}):
                 for cls in ("small", "unit") if ty[0] == "f" else ("small", "random"):
                     la, lb, lr = {"Dist": (n, n, 0), "Horiz": (n, 0, 0), "Vert": (n, n, n), "Value": (n, 0, n)}[kind]
                     a = g.vec(ty, la, cls)
